@@ -411,7 +411,8 @@ fn hybrid_tie(cx: &mut Ctx, x: &[u8], train: &[u8], force: bool) {
             // a = |x| followed by per component: 1,len or 0,0 ; expect = [tag, total output length]
             let mut a = vec![x.len() as u128];
             for l in &lens { match l { Some(n) => { a.push(1); a.push(*n as u128); } None => { a.push(0); a.push(0); } } }
-            let exp: Vec<u128> = if out.is_empty() { vec![] } else { vec![out[0] as u128, out.len() as u128] };
+            // the value of the stored-data marker is the code's business: any tag that is not a component index counts as "stored"
+            let exp: Vec<u128> = if out.is_empty() { vec![] } else { vec![if (out[0] as usize) < lens.len() { out[0] as u128 } else { 255 }, out.len() as u128] };
             cx.coq(2, &a, &[], &exp, cj, force);
             cx.sum.dist(&format!("hybrid_tag={}", out.first().map(|t| t.to_string()).unwrap_or("empty".into())));
         }
@@ -543,6 +544,7 @@ fn pazip_case(cx: &mut Ctx, pi: usize, dict_kind: u64, payloads: &[Vec<u8>], tra
     let cj = json!({"cell": "pazip", "preset": pi, "dict_kind": dict_kind, "payloads": payloads, "train": train});
     cx.sum.eval(&cell, &format!("pz {} {} {:?} {:?}", pi, dict_kind, payloads, train), payloads.iter().any(|p| p.len() >= 2));
     let class = if pi % 6 == 5 && payloads.iter().any(|p| !p.is_empty()) { Some("pazip_reference_no_decoder") } else { None };
+    let stats = std::cell::Cell::new((0u32, 0u32));
     let r = guarded(|| {
         let dict = match dict_kind {
             0 => DictionaryBuilder::new().build(train),
@@ -552,9 +554,13 @@ fn pazip_case(cx: &mut Ctx, pi: usize, dict_kind: u64, payloads: &[Vec<u8>], tra
         let dict = match dict { Ok(d) => d, Err(e) => return Err(format!("dictionary refused: {}", e)) };
         let pool = match SecureMemoryPool::new(SecurePoolConfig::new(4096, 1024, 8)) { Ok(p) => p, Err(e) => return Err(format!("pool: {}", e)) };
         let mut c = match PaZipCompressor::new(dict, preset(pi), pool) { Ok(c) => c, Err(e) => return Err(format!("compressor refused: {}", e)) };
+        let (mut globals, mut literals) = (0u32, 0u32);
         for (i, x) in payloads.iter().enumerate() {
             let mut z = Vec::new();
-            if let Err(e) = c.compress(x, &mut z) { return Ok(Some(format!("payload {}: compress refused: {}", i, e))); }
+            match c.compress(x, &mut z) {
+                Err(e) => return Ok(Some(format!("payload {}: compress refused: {}", i, e))),
+                Ok(st) => { if st.global_matches > 0 { globals += 1; } if st.literal_count > 0 { literals += 1; } }
+            }
             let mut y = Vec::new();
             match c.decompress(&z, &mut y) {
                 Ok(()) if &y == x => {}
@@ -565,8 +571,12 @@ fn pazip_case(cx: &mut Ctx, pi: usize, dict_kind: u64, payloads: &[Vec<u8>], tra
                 Err(e) => return Ok(Some(format!("payload {}: decompress(compress(x)) = Err({})", i, e))),
             }
         }
+        stats.set((globals, literals));
         Ok(None)
     });
+    let (g, l) = stats.get();
+    if g > 0 { cx.sum.dist("pazip_case_with_global_match"); }
+    if l > 0 { cx.sum.dist("pazip_case_with_literal"); }
     match r {
         Err(p) => cx.sum.fail(&cell, class, cj, &format!("panicked: {}", p)),
         Ok(Err(_)) => cx.sum.dist("pazip_setup_refused"),
@@ -746,6 +756,20 @@ pub fn run(args: &Args) {
             }
         }
     }
+    // payload sizes around the 16-bit boundary (size fields, window sizes)
+    for ai in 0..ALGS.len() {
+        for (j, &n) in [65535usize, 65536, 70001].iter().enumerate() {
+            if !th && (ai + j) % 3 != 0 && !needs_training(ALGS[ai].0) { continue; }
+            let mut r = cx.rng.clone();
+            let fam = *r.pick(&[1u64, 4, 6, 9]);
+            let x = payload(&mut r, fam, n);
+            // the training always covers every symbol, so that the entropy coders cannot refuse
+            let mut t = if r.chance(1, 2) { x[..2000].to_vec() } else { x[..300].to_vec() };
+            t.extend((0..=255u8).collect::<Vec<u8>>());
+            cx.rng = r;
+            factory_case(&mut cx, ai, &x, &t);
+        }
+    }
     for k in 0..(if th { 8000 } else { 700 }) {
         let mut r = cx.rng.clone();
         let x = rand_payload(&mut r);
@@ -792,6 +816,23 @@ pub fn run(args: &Args) {
         let dk = r.below(3);
         cx.rng = r;
         pazip_case(&mut cx, k % 6, dk, &ps, &t);
+    }
+    // a dictionary larger than 64 KiB (offsets beyond u16), payload cut from its tail; and an input
+    // beyond the multithreading threshold
+    for k in 0..(if th { 6 } else { 2 }) {
+        let mut r = cx.rng.clone();
+        let mut t: Vec<u8> = Vec::with_capacity(70000);
+        while t.len() < 66000 + 1500 * k { let w = r.range(3, 9) as usize; let word = r.bytes(w); t.extend_from_slice(&word); t.push(b' '); }
+        let a = t.len() - 700;
+        let mut p = t[a..a + 300].to_vec(); p.extend_from_slice(b"##"); p.extend_from_slice(&t[100..400]);
+        cx.rng = r;
+        pazip_case(&mut cx, [0usize, 2, 4, 1][k % 4], 2, &[p], &t);
+    }
+    if th {
+        let mut r = cx.rng.clone();
+        let x = payload(&mut r, 9, 70000);
+        cx.rng = r;
+        pazip_case(&mut cx, 0, 1, &[x], TEXT);
     }
     for _ in 0..(if th { 200 } else { 20 }) {
         let mut r = cx.rng.clone();
